@@ -512,6 +512,23 @@ void StructAssignmentManager::assign_struct_member(
     }
 }
 
+// 参照変数 (Out& r) 経由の場合、ダイレクトアクセス変数 ("o1.ys", "o1.ys[1]") は
+// 参照先の変数名で存在する。r.x = v と同様に参照先の名前を解決して返す
+static std::string
+resolve_direct_access_base_name(Interpreter *interpreter,
+                                const std::string &var_name) {
+    Variable *struct_var = interpreter->find_variable(var_name);
+    if (struct_var && struct_var->is_reference) {
+        Variable *actual_var = reinterpret_cast<Variable *>(struct_var->value);
+        std::string actual_name =
+            interpreter->find_variable_name_by_address(actual_var);
+        if (!actual_name.empty()) {
+            return actual_name;
+        }
+    }
+    return var_name;
+}
+
 void StructAssignmentManager::assign_struct_member_struct(
     const std::string &var_name, const std::string &member_name,
     const Variable &struct_value) {
@@ -671,7 +688,9 @@ void StructAssignmentManager::assign_struct_member_array_element(
     // 1. struct_members内の変数（get_struct_memberで取得）
     // 2. スコープ内のダイレクトアクセス変数（find_variableで取得）
     // printf等のtyped評価では2番目の変数が使用されるため、両方を更新する必要がある
-    std::string direct_array_name = var_name + "." + member_name;
+    const std::string direct_base_name =
+        resolve_direct_access_base_name(interpreter_, var_name);
+    std::string direct_array_name = direct_base_name + "." + member_name;
     Variable *direct_array_var = interpreter_->find_variable(direct_array_name);
     if (direct_array_var && direct_array_var != member_var) {
         // 配列サイズを確認して更新
@@ -684,7 +703,7 @@ void StructAssignmentManager::assign_struct_member_array_element(
 
     // ダイレクトアクセス配列要素変数も更新
     std::string direct_element_name =
-        var_name + "." + member_name + "[" + std::to_string(index) + "]";
+        direct_base_name + "." + member_name + "[" + std::to_string(index) + "]";
     Variable *direct_element = interpreter_->find_variable(direct_element_name);
     if (direct_element) {
         if (direct_element->is_const && direct_element->is_assigned) {
@@ -782,7 +801,8 @@ void StructAssignmentManager::assign_struct_member_array_element(
 
         // ダイレクトアクセス配列要素変数も更新
         std::string direct_element_name =
-            var_name + "." + member_name + "[" + std::to_string(index) + "]";
+            resolve_direct_access_base_name(interpreter_, var_name) + "." +
+            member_name + "[" + std::to_string(index) + "]";
         Variable *direct_element =
             interpreter_->find_variable(direct_element_name);
         if (direct_element) {
